@@ -124,6 +124,7 @@ impl Prop for C10T {
         let bytes = render(&sc.msgs).0;
         sc.scheds.push(gen::sched(&mut rng, &bytes));
         sc.set("lockstep", rng.chance(1, 2) as i64);
+        sc.set("take_first", rng.chance(1, 2) as i64);
         sc.set("restart", rng.chance(1, 2) as i64);
         // quick: a seeded sample of fault positions; thorough: every position
         if !thorough {
@@ -257,6 +258,7 @@ impl Prop for C10T {
         // fault-free trace T
         let mut ex = process_exec(sc, bytes.clone(), 0);
         ex.gates = gates.clone();
+        ex.read_takes_first = sc.flag("take_first");
         let t = exec(&ex, st);
         if t.crashed() {
             return Verdict::Skip("skip:crashed(C05)");
@@ -384,6 +386,7 @@ impl Prop for C10T {
             let mut ex = process_exec(sc, bytes.clone(), 0);
             ex.gates = gates.clone();
             ex.fault_at = Some(k);
+            ex.read_takes_first = sc.flag("take_first");
             ex.restart = sc.flag("restart");
             ex.restart_bounds = bounds.clone();
             let o = exec(&ex, st);
